@@ -27,9 +27,9 @@ from harness.common import exc_name, jdump
 
 PID = "C15"
 TITLE = "Selectors evaluate compositionally; GroupBy partitions by the selected context"
-LEAN_MODULES = ["LenaModel.Props.C15"]
-LEAN_SOURCES = ["LenaModel/Model/C15.lean", "LenaModel/Model/C15Spec.lean", "LenaModel/Lemmas/C15.lean",
-                "LenaModel/Props/C15.lean"]
+LEAN_MODULES = ["LenaModel.Props.C15", "LenaModel.Props.C15Key"]
+LEAN_SOURCES = ["LenaModel/Model/C15.lean", "LenaModel/Model/C15Spec.lean", "LenaModel/Model/C15Key.lean",
+                "LenaModel/Lemmas/C15.lean", "LenaModel/Props/C15.lean", "LenaModel/Props/C15Key.lean"]
 DRIVER = "drivers/C15.lean"
 THEOREMS = [
     # Part 1: selectors, SelectContext, Filter, RunIf
@@ -82,6 +82,8 @@ THEOREMS = [
     "Lena.C15.groupby_init_type_error",
     "Lena.C15.old_groupby_partition",
     "Lena.C15.old_groupby_first_error",
+    # the group key and to_string (C08's model of json.dumps)
+    "Lena.C15.group_key_to_string",
 ]
 TRUSTED = [
     "Lean 4.33.0 kernel; axioms limited to propext, Classical.choice, Quot.sound (audited by #print axioms on every run)",
@@ -90,9 +92,10 @@ TRUSTED = [
     "LenaModel/Model/C15.lean, validated by this correspondence check",
     "dictionaries as slot vectors over the key alphabet of the case (DESIGN.md section 2): iteration order of dict.items() and "
     "of the set of starting prefixes is abstracted (it only decides which of several LenaValueErrors is raised first)",
-    "to_string (json.dumps, sort_keys) is injective on contexts built from None/bool/int/str and string-keyed dictionaries "
-    "(the model uses the selected sub-context itself as the group key; C08 proves to_string_canonical on its own value "
-    "model); validated by comparing groups and keys on every case",
+    "the model uses the selected sub-context itself as the group key, the code its to_string: group_key_to_string proves "
+    "(with C08's to_string_inj on C08's token model of json.dumps, whose spelling of scalars is C08's assumption) that "
+    "the two keyings coincide; the driver renders every group key with C08's to_string and the harness compares it "
+    "with the real key string",
     "JSON line protocol encoders (harness/props/c15.py, drivers/C15.lean)",
 ]
 ASSUMPTIONS = [
@@ -112,13 +115,13 @@ RULE = ("select: exhaustive specifications of depth <= 2 over 4 leaves (string, 
         "raise_on_error x 12 values, as Selector and as Filter; all Not-chains of depth <= 3 x all raise_on_error combinations over "
         "9 inner selectors (raising, total, partial; bare and wrapped in Selector with either raise_on_error), also inside lists; "
         "SelectContext over 19 key forms (dotted strings, lists, one-key dictionaries, malformed keys) x 6 predicates; seeded "
-        "random specifications of depth <= 3 (quick 2000, thorough 120000) with Selector/And/Or/Not/SelectContext instances, bad "
+        "random specifications of depth <= 3 (quick 2000, thorough 100000) with Selector/And/Or/Not/SelectContext instances, bad "
         "items, random contexts (present-but-falsy sub-contexts, unserialisable objects). filterseq: all pairs of 9 leaves + "
         "sampled (quick 300, thorough 8000); runif: 13 selectors x 4 sequences + sampled (quick 200, thorough 5000). groupby: "
         "every assignment of the 6 paths of depth <= 2 over {a,b} to group_by/merge/neither x both roots (1458 key sets) x all "
         "361 contexts of depth <= 2 over {a,b} with leaves {1,2} and {}; every assignment of those 6 paths to "
         "group_by/merge/both/neither (overlaps, 8192 key sets; quick: a seeded sample of 1200) x 40 contexts; seeded random key "
-        "sets over {a,b,c} up to depth 3 with random contexts up to depth 3 (quick 800, thorough 60000), overlapping and "
+        "sets over {a,b,c} up to depth 3 with random contexts up to depth 3 (quick 800, thorough 40000), overlapping and "
         "improper key sets, string/tuple/callable argument forms, update/clear aliases, unserialisable objects. oldgroupby: "
         "all singles, pairs and sampled triples of 6 callables x random flows. contains: 16 strings x 120 contexts; "
         "_split_key and _startswith on small exhaustive sets. Non-trivial: select - a value is selected and another is not, "
@@ -701,8 +704,8 @@ def gen_cases(ctx):
         _gen_filterseq(ctx, r[1], 300 if quick else 8000),
         _gen_runif(ctx, r[2], 200 if quick else 5000),
         _gen_groupby_overlap(ctx, r[3]),
-        _gen_select_random(ctx, r[4], 2000 if quick else 120000),
-        _gen_groupby_random(ctx, r[5], 800 if quick else 60000),
+        _gen_select_random(ctx, r[4], 2000 if quick else 100000),
+        _gen_groupby_random(ctx, r[5], 800 if quick else 40000),
         _gen_select_exhaustive(ctx),
         _gen_groupby_exhaustive(ctx),
     ]
@@ -838,6 +841,7 @@ def run_impl(case):
                 groups.append([v if isinstance(v, int) else v[0] for v in grp])
             import json
             keys = [json.loads(k) for k in gb.groups]
+            keystrs = list(gb.groups)
             # reset() / clear() empty the element, which can then be used again
             reuse = None
             after = None
@@ -855,7 +859,7 @@ def run_impl(case):
                 reuse = [[v if isinstance(v, int) else v[0] for v in grp] for grp in gb.compute()]
             except Exception as e:  # noqa: BLE001
                 reuse = {"e": exc_name(e)}
-        return {"groups": groups, "keys": keys, "errors": errors, "after": after, "reuse": reuse}
+        return {"groups": groups, "keys": keys, "keystrs": keystrs, "errors": errors, "after": after, "reuse": reuse}
     if op == "oldgroupby":
         import lena.flow.group_by
         gbj = case["group_by"]
@@ -997,8 +1001,7 @@ def compare(case, res, replies):
             if e:
                 return e
         # fill_into = the selector applied to each value
-        e = (_eq("fill_into", res["filled"], m["fill"]) or _eq("beforeError/firstError", [res["kept"], res["stop"]],
-                                                               [m["specRun"]["kept"], m["specRun"]["stop"]])
+        e = (_eq("fill_into", res["filled"], m["fill"]) or _eq("beforeError/firstError = filterRun", True, m["specRun_eq_model"])
              or _eq("sem", res["r"], m["sem"]))
         if e:
             return e
@@ -1019,10 +1022,10 @@ def compare(case, res, replies):
     if op == "filterseq":
         return (_eq("Sequence(Filter, Filter)", [res["kept"], res["stop"]], [m["kept"], m["stop"]])
                 or _eq("Filter(And)", [res["and"]["kept"], res["and"]["stop"]], [m["and"]["kept"], m["and"]["stop"]])
-                or _eq("stages", [res["kept"], res["stop"]], [m["stages"]["kept"], m["stages"]["stop"]]))
+                or _eq("two stages = filterSeqRun", True, m["stages_eq_model"]))
     if op == "runif":
         return (_eq("RunIf.run", [res["kept"], res["stop"]], [m["kept"], m["stop"]])
-                or _eq("runif_spec", [res["kept"], res["stop"]], [m["specRun"]["kept"], m["specRun"]["stop"]]))
+                or _eq("runif_spec = runIfRun", True, m["specRun_eq_model"]))
     if op == "oldgroupby":
         e = _eq("groups", res["groups"], m["groups"]) or _eq("keys", res["keys"], m["keys"]) or _eq("errors", res["errors"], m["errors"])
         if e:
@@ -1042,6 +1045,7 @@ def compare(case, res, replies):
     if e:
         return e
     e = (_eq("groups", res["groups"], m["groups"]) or _eq("keys", res["keys"], m["keys"])
+         or _eq("to_string of the keys (C08's model)", res["keystrs"], m["keystrs"])
          or _eq("fill errors", res["errors"], m["errors"]) or _eq("after reset/clear", res["after"], m["after"]))
     if e:
         return e
